@@ -344,7 +344,7 @@ def run(ck):
         if only:
             cases = [c for c in cases if c["f"] in only]
         recs, nruns = observe_all(cases)
-        rejected = fu.tlc_validate(ck, "HtmlScanTrace", recs, batch=6000, parallel=4)
+        rejected = fu.tlc_validate(ck, "HtmlScanTrace", recs, batch=6000, parallel=4 if ck.tier == "quick" else 6)
         done, extra = mc.result()
     for r, label in done:
         ck.add_tlc(r, label)
